@@ -89,6 +89,8 @@ type Config struct {
 
 type Case struct {
 	Viz    bool   `json:"viz"` // record the DOT text after every operation
+	// raw operations: reuse ONE ProvideInfo / DecorateInfo / InvokeInfo for all calls of the case
+	ShareInfo bool `json:"share_info"`
 	ID     string `json:"id"`
 	Config Config `json:"config"`
 	Fns    []Fn   `json:"fns"`
